@@ -36,7 +36,7 @@ func init() {
 		Finish:         finish,
 		MinEvaluations: map[string]int{"quick": 3000000, "thorough": 250000000},
 		MinNontrivial:  map[string]int{"quick": 500000, "thorough": 10000000},
-		RequiredObs:    []string{"aut>1", "rep:dense", "rep:sparse", "library_path_checked", "large_cell_graphs(n>=21)", "big_cell_cases", "perturbed_symmetric_graphs_checked", "circulants_with_one_edge_toggled", "cycle_unions_checked(n>=21)", "earlier_result_rechecked_after_next_call"},
+		RequiredObs:    []string{"aut>1", "rep:dense", "rep:sparse", "rep:variant(edge bytes 1..255 / spare capacity)", "library_path_checked", "large_cell_graphs(n>=21)", "big_cell_cases", "perturbed_symmetric_graphs_checked", "circulants_with_one_edge_toggled", "cycle_unions_checked(n>=21)", "earlier_result_rechecked_after_next_call"},
 	})
 }
 
@@ -64,12 +64,23 @@ func isPerm(p []int, n int) bool {
 // canonical graph computed by the harness.
 func canonOf(c *engine.Ctx, key string, h *rg.G, sparse bool, witness func() interface{}, vkey string) (*rg.G, []int, bool) {
 	var lg graph.Graph
+	// every fourth graph (a function of the graph, so that a case replays on its own) is handed over in a
+	// representation variant: edge bytes 1..255 and dirty spare capacity (dense), spare capacity (sparse)
+	variant := 0
+	if h.N > 0 {
+		if hv := h.M()*7 + h.N*3 + h.Deg(0); hv%4 == 1 {
+			variant = 1 + hv%5
+		}
+	}
 	if sparse {
-		lg = h.Sparse()
+		lg = h.SparseVariant(variant)
 		c.Obs("rep:sparse", 1)
 	} else {
-		lg = h.Dense()
+		lg = h.DenseVariant(variant)
 		c.Obs("rep:dense", 1)
+	}
+	if variant > 0 {
+		c.Obs("rep:variant(edge bytes 1..255 / spare capacity)", 1)
 	}
 	var p []int
 	// canonical labelling is exponential in the worst case and WHICH symmetric graphs are slow depends on incidental
